@@ -52,10 +52,12 @@ func runC08(c *core.Ctx) {
 	c08Recheck(c, sp)
 	c08Mapping(c, sp)
 	c08Keys(c, sp)
-	c08KeyBuf(c, sp)
+	c08KeyBuf(c, sp, "C08.keybuf")
 	c08Notify(c)
 	if st := c.P.Pkg("services/storage"); st != nil {
 		c15SeekAs(c, st, "C08.seek")
+		// the event states of a topic are written through a bucket handle taken from the one shared store: handles must not share their path
+		c15BucketPath(c, "C08.bucketpath")
 	} else {
 		c.Undecided("C08.seek", "anchor:services/storage", token.NoPos, "package not loaded")
 	}
@@ -63,6 +65,7 @@ func runC08(c *core.Ctx) {
 	c08Rereg(c, sp)
 	if ap := c.P.Pkg("alert"); ap != nil {
 		c09Restore(c, ap, "C08.fresh")
+		c09SameObject(c, ap, "C08.sameobj")
 	}
 	c08Migrate(c, sp)
 	c08MigrateRepeat(c, sp)
@@ -880,15 +883,15 @@ func c08Notify(c *core.Ctx) {
 	c.Check(delivers, "C08.notify", "Topics.UpdateEvent#handlers", fn.Decl.Pos(), "UpdateEvent changes and persists the topic's event state but never calls the topic's handlers: a level that reaches a topic only through the restore-time reconciliation (crash between the anonymous-topic and the named-topic commit) is never told to that topic's handlers")
 }
 
-func c08KeyBuf(c *core.Ctx, sp *packages.Package) {
+func c08KeyBuf(c *core.Ctx, sp *packages.Package, rule string) {
 	info := sp.TypesInfo
-	fn := c.Need("C08.keybuf", "services/alert", "Service", "loadSavedTopicStates")
+	fn := c.Need(rule, "services/alert", "Service", "loadSavedTopicStates")
 	if fn == nil {
 		return
 	}
 	fl := findFuncLit(fn.Decl.Body)
 	if fl == nil {
-		c.Undecided("C08.keybuf", "Service.loadSavedTopicStates", fn.Decl.Pos(), "walk callback not found")
+		c.Undecided(rule, "Service.loadSavedTopicStates", fn.Decl.Pos(), "walk callback not found")
 		return
 	}
 	// a buffer declared outside the callback and written inside it?
@@ -908,7 +911,7 @@ func c08KeyBuf(c *core.Ctx, sp *packages.Package) {
 		return true
 	})
 	if !shared {
-		c.Ok("C08.keybuf", "Service.loadSavedTopicStates")
+		c.Ok(rule, "Service.loadSavedTopicStates")
 		c.Note("C08.keybuf: the walk callback builds its key without a buffer shared between topics")
 		return
 	}
@@ -926,7 +929,7 @@ func c08KeyBuf(c *core.Ctx, sp *packages.Package) {
 		}}
 	paths, err := eng.RunBody(fl.Type, nil, fl.Body)
 	if err != nil {
-		c.Undecided("C08.keybuf", "Service.loadSavedTopicStates", fl.Pos(), "%v", err)
+		c.Undecided(rule, "Service.loadSavedTopicStates", fl.Pos(), "%v", err)
 		return
 	}
 	good := len(paths) > 0
@@ -937,11 +940,11 @@ func c08KeyBuf(c *core.Ctx, sp *packages.Package) {
 		w := an.Seq(p, "write", "reset")
 		if !(w == "" || strings.HasSuffix(w, "reset") || strings.HasPrefix(w, "reset,write") && !strings.Contains(w[len("reset,"):], "reset") && strings.Count(w, "write") >= 1 && strings.HasPrefix(w, "reset")) {
 			good = false
-			c.Fail("C08.keybuf", "Service.loadSavedTopicStates#reset", p.RetPos, "the walk continues on a path that leaves the previous topic's name in the shared key buffer ([%s]; %s): every later topic is looked up under a concatenated key, found empty, and restored without its event states — those alerts silently restart at OK", w, p.Cond())
+			c.Fail(rule, "Service.loadSavedTopicStates#reset", p.RetPos, "the walk continues on a path that leaves the previous topic's name in the shared key buffer ([%s]; %s): every later topic is looked up under a concatenated key, found empty, and restored without its event states — those alerts silently restart at OK", w, p.Cond())
 		}
 	}
 	if good {
-		c.Ok("C08.keybuf", "Service.loadSavedTopicStates")
+		c.Ok(rule, "Service.loadSavedTopicStates")
 	}
 }
 
